@@ -131,6 +131,10 @@ def items(tier, seed):
         spec = {'factors': d['factors'], 'block': d['block']}
         if eligible(spec):
             out.append({'spec': spec, 'tier': tier, 'seed': seed})
+        elif weighted_basic(spec):
+            # a constraint names a weighted level: the twin is not semantically comparable, but construction and sampling must
+            # not fail internally where the twin's does not, and the weighted design must still match the reference
+            out.append({'spec': spec, 'tier': tier, 'seed': seed, 'only_totality': True})
     # weighted factor in some but not all crossings
     A = gen.basic('A', 2, [2, 1]); Bf = gen.basic('B', 2); C = gen.basic('C', 3)
     for factors, crossings in (([A, Bf], [['A'], ['B']]), ([A, Bf, C], [['A'], ['C']]), ([A, Bf, C], [['A', 'B'], ['C']]),
@@ -174,8 +178,22 @@ def run_item(item):
         except (KeyError, IndexError) as e2:
             res[name] = ('malformed', e2)
     w, t = res['weighted'], res['twin']
-    if t[0] != 'ok':
+    if t[0] != 'ok' and not item.get('only_totality'):
         return core.skip('twin cannot be built/sampled (%s)' % t[0])
+    if item.get('only_totality'):
+        if w[0] in ('ctor', 'raises') and not isinstance(w[1], (ValueError, RuntimeError)):
+            return core.bad(core.viol('weighted_side_fails', dict(sig, how=w[0], exc=type(w[1]).__name__), design=dsw.brief(spec), message=str(w[1])[:200]))
+        if w[0] != 'ok':
+            return core.skip('weighted design refused')
+        wc = Counter(w[1])
+        try:
+            ref = R.solve(spec, limit=cap)
+            if ref.readings and not ref.refused and dsw.match_exact(ref, wc) is None:
+                kinds, d = dsw.diff_detail(ref, wc)
+                return core.bad(core.viol('weighted_differs_from_reference', dict(sig, diff=kinds), design=dsw.brief(spec), **d))
+        except (R.RefOverflow, R.RefUnsupported):
+            pass
+        return core.ok(states=max(1, sum(wc.values())), transitions=2, validated=sum(wc.values()), nontrivial=len(wc) >= 2, outcome=['totality', len(wc)])
     if w[0] != 'ok':
         return core.bad(core.viol('weighted_side_fails', dict(sig, how=w[0], exc=type(w[1]).__name__), design=dsw.brief(spec), message=str(w[1])[:200]))
     wc = Counter(w[1])
